@@ -1,8 +1,13 @@
 CONSTANTS
   MaxSites = 3
   Unique = TRUE
+  Kws = {"none", "s1", "s2", "traced", "param"}
+  Scopes = {"top"}
 SPECIFICATION Spec
 INVARIANT DedupSound
 INVARIANT CallArity
+INVARIANT CallBinding
+INVARIANT NamesUnique
+INVARIANT ResolvedSound
 INVARIANT DistinctWhenDifferent
 CHECK_DEADLOCK FALSE
